@@ -66,6 +66,8 @@ def check(run):
         run.guard("C02.via.C03.6.scheme-patterns", cfg, lambda: _C03.rule_scheme_patterns(b3, F, cfg))
         run.guard("C02.3.regex-translation", cfg + "/builder", lambda: rule_regex_builder(run, F, cfg))
         run.guard("C02.3.regex-translation", cfg + "/case", lambda: rule_regex_case(run, F, cfg))
+        run.guard("C02.3.regex-translation", cfg + "/collected", lambda: rule_patterns_collected(run, F, cfg))
+        run.guard("C02.5.pattern-split", cfg, lambda: rule_pattern_split(run, F, cfg))
         from . import C12 as _C12
         b12 = run.borrow("C12", why="patterns (and `|` right anchors) are evaluated on the complete URL, fragment included")
         run.guard("C02.via.C12.7.whole-url", cfg, lambda: _C12.rule_whole_url(b12, F, cfg))
@@ -546,3 +548,45 @@ def rule_regex_case(run, F, cfg):
            "compile_regex builds every regex with case_insensitive(is_complete_regex && !match_case). Lower-casing the "
            f"source of `/ab\\D/` would make it `/ab\\d/` (lower-casing sites: {low}; builder flags: {ci})",
            site=low[0][1] if low else p.loc(0), config=cfg)
+
+
+def rule_patterns_collected(run, F, cfg):
+    """compile_regex compiles every pattern it is given: one push per loop iteration into the vector the builders
+    receive, the unescaped source for /regex/ rules and the translated pattern otherwise (a missing push makes the
+    vector empty, which compiles to match-all)"""
+    cr = F.fn("regex_manager::compile_regex")
+    rows = []
+    for b, t in cr.calls(r"^std::vec::Vec::push$"):
+        c = dominating_conditions(cr, b, render=cr.vexpr_operand)
+        rows.append((c.get("$is_complete_regex"), any(k.startswith("discr(") and re.search(r"Iterator>?::next\(", k) and v == 1 for k, v in c.items())))
+    run.ob("C02.3.regex-translation", "every-pattern-collected", sorted(rows, key=str) == [(0, True), (1, True)],
+           f"inside the loop over the patterns there is exactly one push under is_complete_regex and one under its negation ({rows})",
+           site=cr.loc(0), config=cfg)
+
+
+def rule_pattern_split(run, F, cfg):
+    """How a rule line is split: the option list after the last unescaped `$` is parsed and kept, and for `||` rules
+    the hostname is the text before the first separator (regex shapes), before the first `/`, or the whole pattern"""
+    a = F.fn("filters::abstract_network::AbstractNetworkFilter::parse")
+    opts = []
+    for b, i, st in a.statements():
+        if st["k"] == "assign" and st["rv"]["k"] == "agg" and str(st["rv"].get("adt", "")).endswith("AbstractNetworkFilter"):
+            d = dict(zip(st["rv"]["fields"], st["rv"]["ops"]))
+            opts.append(a.expr_operand(d["options"]))
+    ok_o = len(opts) == 1 and "filters::abstract_network::parse_filter_options(" in opts[0] and opts[0].startswith("φ{std::option::Option::None{} | std::option::Option::Some{")
+    run.ob("C02.5.pattern-split", "options-parsed-and-kept", ok_o,
+           f"AbstractNetworkFilter.options is None or Some(parse_filter_options(<text after `$`>)) ({[o[:90] for o in opts]})",
+           site=a.loc(0), config=cfg)
+    p = F.fn("filters::network::NetworkFilter::parse")
+    sites = []
+    for h in [p] + F.closures_of(p.name):
+        for b, i, st in h.statements():
+            if st["k"] == "assign" and re.search(r"(\$|up:)hostname$", h.vexpr_place(st["pl"])):
+                v = h.expr_rvalue(st["rv"])
+                if v.startswith("std::option::Option::Some{0: "):
+                    sites.append(re.sub(r"filters::abstract_network::AbstractNetworkFilter::parse\(arg:line\)@Continue\.0\.pattern\.pattern|up:pattern", "PATTERN", v))
+    shapes = sorted("slice-to" if re.match(r"^std::option::Option::Some\{0: <std::string::String as std::ops::Index<I>>::index\(PATTERN, std::ops::RangeTo::RangeTo\{end: ", s_)
+                    else ("whole" if s_ == "std::option::Option::Some{0: PATTERN}" else "?" + s_[:60]) for s_ in sites)
+    run.ob("C02.5.pattern-split", "hostname-of-double-pipe-rules", shapes == ["slice-to", "slice-to", "whole"],
+           "`||` rules get their hostname in each of the three shapes: pattern[..first separator] (wildcard / `^` patterns), "
+           f"pattern[..first '/'] and the whole pattern ({shapes})", site=p.loc(0), config=cfg)
